@@ -129,7 +129,7 @@ def summarise(agg, tier):
     q = tier == "quick"
     return {
         "thresholds": {"models": 450 if q else 8000, "cli_confirmed_outcomes": 120 if q else 1200, "inproc_ok-compiled": 100 if q else 3000},
-        "rule": "case = (generated model, option set); families: 'hostile' (19 sub-generators: every unary/binary builtin x 11 dtypes x rank 0-5, "
+        "rule": "case = (generated model, option set); families: 'hostile' (21 sub-generators: every unary/binary builtin x 11 dtypes x rank 0-5, "
                 "batch>1, no-op graphs, kernel extremes, odd/missing/per-axis/mismatched quantisation, empty buffers, zero dims, ...) and the 8 regular "
                 "families; distinct = distinct (family, operator kinds, outcome) triples",
         "assumptions": ["models are structurally valid by construction and are re-parsed by the independent reader before use",
